@@ -36,9 +36,6 @@ def extra_family():
         fam.append(dict(name=name, spec=spec, ranges=[], unbounded=[], inputs=W.constant_cells(spec),
                         cells=W.all_cells(spec), tags=[]))
     add('bigvals', S({'A1': 2000000, 'B1': '=A1*2', 'C1': '=B1+0.5', 'D1': '=C1-A1'}))
-    add('range_of_formulas', S({'A1': 1, 'A2': '=A1+1', 'A3': '=A2*2', 'B1': '=SUM(A1:A3)', 'C1': '=B1+1',
-                                'D1': '=VLOOKUP(2,A1:A3,1,FALSE)'}))
-    add('zero_results', S({'A1': 5, 'B1': '=A1-5', 'C1': '=A1>9', 'D1': '=B1+1', 'E1': '=IF(C1,1,"no")', 'F1': '=A1&""'}))
     return fam
 
 
@@ -233,7 +230,7 @@ def run(ctx):
     tols = TOLS if ctx.thorough else [None, 0.01]
     if not ctx.thorough:
         keep = ('chain', 'diamond', 'fan_range', 'nested', 'two_sheets', 'names', 'cse', 'types', 'if', 'errformula',
-                'mixed_range', 'bigvals', 'range_of_formulas', 'zero_results', 'unbounded', 'lookup')
+                'mixed_range', 'bigvals', 'range_of_formulas', 'zero_results', 'unbounded', 'lookup', 'sheet_range_name')
         fams = [f for f in fams if f['name'] in keep]
     k = ctx.seed % len(fams)
     jobs = [(f, tols) for f in fams[k:] + fams[:k]]
